@@ -33,6 +33,7 @@ func init() {
 			{Name: "complete-forgets", File: f, Old: "\terr = ctx.complete()\n", New: "\tctx.complete()\n", Expect: "result/NewPackage"},
 			{Name: "newpackage-recover-no-err", File: f, Old: "\t\t\t\tctx.handleRecover(e, nil)\n\t\t\t\terr = ctx.errs.ToError()\n", New: "\t\t\t\tctx.handleRecover(e, nil)\n", Expect: "result/NewPackage:recovered"},
 			{Name: "maplit-error-dropped", File: "cl/expr.go", Old: "\terr = ctx.cb.MapLitEx(typ, n<<1, v)\n", New: "\tctx.cb.MapLitEx(typ, n<<1, v)\n", Expect: "result/compileMapLitEx"},
+			{Name: "typeswitch-dup-by-pointer", File: "cl/stmt.go", Old: "\t\t\tif !haserr {\n\t\t\t\tseen[T] = citem\n\t\t\t}", New: "\t\t\tif _, dup := seen[T]; !dup && !haserr {\n\t\t\t\tseen[T] = citem\n\t\t\t}", Expect: "type-identity/compileTypeSwitchStmt:seen"},
 			{Name: "errs-reset", File: f, Old: "\tfor _, load := range ctx.inits {\n\t\tload()\n\t}", New: "\tfor _, load := range ctx.inits {\n\t\tload()\n\t}\n\tif conf.Outline {\n\t\tctx.errs = nil\n\t}", Expect: "error-sink/errs-writers"},
 		},
 	})
@@ -293,6 +294,49 @@ func runC06(c *core.Check) {
 	}
 	c.Analysed("calls_of_cl_functions_returning_error", nCalls)
 	c.Floor("error-used", 15)
+
+	// ---------- (2b) type identity: go/types creates a fresh object for every occurrence of an unnamed type ([]int, *T,
+	// map[K]V, func types), so identity must be decided by types.Identical; a map lookup keyed by types.Type compares
+	// pointers and misses duplicates the Go compiler then rejects (duplicate case in a type switch, …)
+	nTypeMaps, nTypeReads := 0, 0
+	typesType := func(t types.Type) bool {
+		nt, ok := types.Unalias(t).(*types.Named)
+		return ok && nt.Obj().Pkg() != nil && nt.Obj().Pkg().Path() == "go/types" && nt.Obj().Name() == "Type"
+	}
+	for _, fd := range core.AllFuncDecls(pk) {
+		if fd.Body == nil {
+			continue
+		}
+		par := parentMap(fd)
+		ast.Inspect(fd.Body, func(n ast.Node) bool {
+			ix, ok := n.(*ast.IndexExpr)
+			if !ok {
+				return true
+			}
+			mt, ok := info.TypeOf(ix.X).Underlying().(*types.Map)
+			if !ok || !typesType(mt.Key()) {
+				return true
+			}
+			nTypeMaps++
+			// a store `m[T] = v` is fine; any read decides identity by pointer
+			if as, isAs := par[ix].(*ast.AssignStmt); isAs {
+				isLHS := false
+				for _, l := range as.Lhs {
+					if l == ast.Expr(ix) {
+						isLHS = true
+					}
+				}
+				if isLHS {
+					return true
+				}
+			}
+			nTypeReads++
+			c.Bad("type-identity", core.FuncName(fd)+":"+core.ExprStr(ix.X), ix.Pos(), "a map keyed by types.Type is read with `"+core.ExprStr(ix)+"`: the lookup compares type objects by pointer, so two occurrences of the same unnamed type ([]int, *T, map[K]V …) are different keys — a check built on it lets through what the Go compiler rejects (e.g. duplicate cases in a type switch)")
+			return true
+		})
+	}
+	c.Analysed("maps_keyed_by_types_Type_index_sites", nTypeMaps)
+	c.Decide(nTypeReads == 0 && nTypeMaps > 0, "type-identity", "census", 0, core.Sprintf("%d index sites on maps keyed by types.Type, all stores; identity is decided by ranging and types.Identical", nTypeMaps), "maps keyed by types.Type are read by key (see the sites above) or no such map was found (the census lost its subject)")
 
 	// ---------- (3) the sink and the result
 	pkgCtx := prog.NamedType("./cl", "pkgCtx")
